@@ -17,7 +17,8 @@ What the real code violates (kept visible, proved as witnesses, listed in known_
 
 What is *not* provable here and is covered by exploration only (harness round trips through the real
 serde_json / ron): the derived `Serialize`/`Deserialize` impls of `FieldValue` and of the IR structs,
-string escaping, and number printing/parsing by serde_json and ron (where F-28 lives).
+string escaping, and number printing/parsing by serde_json and ron (where F-28 was found; fixed by
+enabling serde_json's `float_roundtrip`, guarded by the harness's exact float streams).
 -/
 import TrustfallModel.Proofs.Serial
 
